@@ -473,7 +473,7 @@ func (cs *ContractSet) parseFile(repo, path string) error {
 func firstWord(s string) string {
 	s = strings.TrimSpace(s)
 	for i, r := range s {
-		if !(r >= 'a' && r <= 'z') {
+		if !((r >= 'a' && r <= 'z') || (r >= 'A' && r <= 'Z') || (r >= '0' && r <= '9') || r == '_') {
 			return s[:i]
 		}
 	}
